@@ -142,6 +142,12 @@ class CodemodExecutionContext:
         from codemodder.dependency_management import DependencyManager
 
         for package_store in store_list:
+            if all(
+                package_store.has_requirement(dep.requirement) is True
+                for dep in dependencies
+            ):
+                # already declared: nothing to add here or in any other manifest
+                break
             dm = DependencyManager(package_store, self.directory)
             if (changeset := dm.write(list(dependencies), self.dry_run)) is not None:
                 self.add_changesets(codemod_id, [changeset])
